@@ -269,8 +269,14 @@ pub fn snapshot(db: &Arc<FixtureDatabase>, root: &Path, with_handlers: bool) -> 
 /// `undeclared` = include the per-file undeclared-fixture findings (they legitimately reflect the
 /// instant of analysis, so order-independence checks leave them out: C08's statement does not list them).
 pub fn snapshot_opts(db: &Arc<FixtureDatabase>, root: &Path, with_handlers: bool, undeclared: bool) -> Snapshot {
-    let mut s = Snapshot::default();
     let files = super::dbsnap::files_in_cache(db);
+    snapshot_files(db, root, &files, with_handlers, undeclared)
+}
+
+/// Same, for an explicit list of documents (per-file queries do not depend on what happens to be cached).
+pub fn snapshot_files(db: &Arc<FixtureDatabase>, root: &Path, files: &[PathBuf], with_handlers: bool, undeclared: bool) -> Snapshot {
+    let mut s = Snapshot::default();
+    let files: Vec<PathBuf> = files.to_vec();
     let defs = all_defs(db);
     // resolution at every recorded usage (first, middle, last column)
     for u in super::dbsnap::all_usages(db) {
